@@ -35,6 +35,7 @@ import json
 import os
 import shutil
 import threading
+import time
 
 from common import blit, llit, zlit, slit, VERIF
 
@@ -77,6 +78,11 @@ SIG_RACE = 'response-missing-tile,stored-between-load-and-is_cached'
 
 def enc(c):
     return c[0] + 256 * c[1] + 65536 * c[2]
+
+
+def enc_stale(c):
+    """content id of the expired image of tile c (colour of z + 100)"""
+    return enc((c[0], c[1], c[2] + 100))
 
 
 def colour(c):
@@ -147,8 +153,14 @@ class World(object):
         ms = list(conf['meta'])
         self.tm = TileManager(self.grid, self.cache, [self.source], 'png', self.locker, image_opts=self.opts,
                               meta_size=ms, meta_buffer=0, concurrent_tile_creators=1)
+        self.expire = bool(conf.get('expire'))
+        self.expire_ts = int(time.time()) - 1000
+        if self.expire:
+            # an expire timestamp in the past: files written during the run are not expired
+            self.tm._expire_timestamp = self.expire_ts
         self.meta = self.tm.meta_grid is not None
         self.flip = bool(self.grid.flipped_y_axis)
+        self.stale = []
         self.loc = {}
         for z, (gw, gh) in enumerate(self.sizes):
             for x in range(gw):
@@ -195,6 +207,18 @@ class World(object):
         for c in coords:
             img = Image.new('RGB', (TS, TS), colour(c))
             self.cache.store_tile(Tile(c, ImageSource(img, image_opts=self.opts)))
+
+    def seed_stale(self, coords):
+        """expired files: an older image (colour of z+100) with a modification time before the expire timestamp"""
+        from mapproxy.cache.tile import Tile
+        from mapproxy.image import ImageSource
+        from PIL import Image
+        for c in coords:
+            img = Image.new('RGB', (TS, TS), colour((c[0], c[1], c[2] + 100)))
+            t = Tile(c, ImageSource(img, image_opts=self.opts))
+            self.cache.store_tile(t)
+            loc = self.cache.tile_location(Tile(c))
+            os.utime(loc, (self.expire_ts - 5000, self.expire_ts - 5000))
 
     def final_cache(self):
         from PIL import Image
@@ -280,6 +304,7 @@ class Sched(object):
         self.weird = []
         self.oracle_fail = []
         self.results = [None] * self.m
+        self.last_exists = {}  # tid -> (path, entry, exists) of the exists call of the current step
         self.holding = {}      # tid -> lock key
         self.holder = {}       # lock key -> tid
 
@@ -292,6 +317,7 @@ class Sched(object):
             return None
         if self.aborting:
             raise Abort()
+        self.last_exists[tid] = None
         self.pending[tid] = opname
         self.arrived.release()
         self.sems[tid].acquire()
@@ -321,8 +347,35 @@ class Sched(object):
             self.weird.append('cache read of unexpected path %r' % (path,))
             c = (-1, -1, -1)
         entry['res'] = ('read', c, bool(r))
+        self.last_exists[entry['pid']] = (path, entry, bool(r))
         self.note_under_lock(entry, [c])
         return r
+
+    def w_lstat(self, path):
+        """load_tile_metadata of TileManager.is_cached: same look as the exists call just before it (if any)"""
+        tid = self.tid()
+        if tid is None:
+            return os.lstat(path)
+        le = self.last_exists.get(tid)
+        if le is not None and le[0] == path:
+            entry, ex = le[1], le[2]
+            self.last_exists[tid] = None
+            st = os.lstat(path)
+            entry['res'] = ('read', entry['res'][1], ex and int(st.st_mtime) > self.world.expire_ts)
+            return st
+        entry = self.gate('read')
+        c = self.world.coord_of(path)
+        if c is None:
+            self.weird.append('stat of unexpected path %r' % (path,))
+            c = (-1, -1, -1)
+        try:
+            st = os.lstat(path)
+        except OSError:
+            entry['res'] = ('read', c, False)
+            raise
+        entry['res'] = ('read', c, int(st.st_mtime) > self.world.expire_ts)
+        self.note_under_lock(entry, [c])
+        return st
 
     def w_write_atomic(self, filename, data):
         from mapproxy.util.fs import write_atomic
@@ -497,7 +550,11 @@ class Patches(object):
             s = me.cur()
             return s.w_try_lock(real_try, lock) if s else real_try(lock)
 
-        F.os = Proxy(real_os, path=Proxy(real_os.path, exists=exists))
+        def lstat(p):
+            s = me.cur()
+            return s.w_lstat(p) if s else real_os.lstat(p)
+
+        F.os = Proxy(real_os, path=Proxy(real_os.path, exists=exists), lstat=lstat)
         F.write_atomic = wa
         L.os = Proxy(real_os, remove=rm)
         L.time = Proxy(real_time, sleep=sleep)
@@ -528,6 +585,7 @@ METAS = [(1, 1), (2, 2), (2, 2), (2, 1), (1, 2), (3, 2), (4, 4), (3, 3)]
 def gen_conf(rng):
     g = dict(rng.choice(GRIDS))
     g['meta'] = rng.choice(METAS)
+    g['expire'] = rng.random() < 0.35
     return g
 
 
@@ -611,6 +669,30 @@ def race_family(rng, count):
     return out
 
 
+def stale_family(rng, count):
+    """a refresh rule and a tile that exists but is expired: everybody wants it; the requests that waited for the lock
+    must see the re-created tile in their re-check"""
+    out = []
+    for v in range(count):
+        conf = {'extent': (32, 32), 'res': (8, 4, 2, 1), 'origin': rng.choice(['ll', 'ul']),
+                'meta': (1, 1) if v % 2 == 0 else rng.choice([(2, 2), (2, 1), (3, 2)]), 'expire': True}
+        z = rng.choice([1, 2, 3])
+        n = 2 ** z
+        t = (rng.randrange(n), rng.randrange(n), z)
+        m = rng.choice([2, 3, 4, 5, 6])
+        reqs = [[t] for _ in range(m)]
+        if v % 3 == 2:
+            reqs[-1] = [t, (t[0] ^ 1, t[1], z)]
+        conf['stale'] = [t] if v % 4 else [t, (t[0] ^ 1, t[1], z)]
+        # everybody looks first (all see the expired tile), then one after the other
+        if v % 2 == 0:
+            sched = [i for i in range(m) for _ in range(2)] + [i for i in range(m) for _ in range(12)]
+        else:
+            sched = [i % m for i in range(rng.choice([30, 80]))]
+        out.append((conf, reqs, [], sched, 'stale-family'))
+    return out
+
+
 def contention_family(rng, count):
     """everybody wants the same tile, scheduled round robin / in bursts"""
     out = []
@@ -629,7 +711,9 @@ def corpus_cases():
         try:
             d = json.load(open(fn))
             conf = {'extent': tuple(d['conf']['extent']), 'res': tuple(d['conf']['res']), 'origin': d['conf']['origin'],
-                    'meta': tuple(d['conf']['meta'])}
+                    'meta': tuple(d['conf']['meta']), 'expire': bool(d['conf'].get('expire'))}
+            if 'stale' in d:
+                conf['stale'] = [tuple(t) for t in d['stale']]
             out.append((conf, [[tuple(t) for t in r] for r in d['requests']], [tuple(t) for t in d.get('initial', [])],
                         list(d['schedule']), 'corpus:' + os.path.basename(fn)))
         except Exception as ex:  # noqa
@@ -678,10 +762,10 @@ def resp_lit(res):
 
 
 DEFS = "Definition up_enc (t : coord) : Z := let '(x, y, z) := t in x + 256 * y + 65536 * z.\n"
-CASE_TYPE = ('gconf * bool * list (coord * Z) * list (list coord) * list (nat * obs) * '
+CASE_TYPE = ('gconf * bool * bool * list (coord * Z) * list (coord * Z) * list (list coord) * list (nat * obs) * '
              'list (list (coord * option Z)) * list (coord * Z) * list coord')
-CHECKER = ("fun c => let '(g, reload, c0, reqs, tr, resps, final, ups) := c in "
-           "trace_ok (grid_sys g true reload up_enc) c0 reqs tr resps final ups")
+CHECKER = ("fun c => let '(g, reload, expire, oldl, c0, reqs, tr, resps, final, ups) := c in "
+           "trace_ok_x (grid_sys_x g true reload up_enc expire (lookup oldl)) c0 oldl reqs tr resps final ups")
 
 
 def compact_trace(trace):
@@ -703,7 +787,17 @@ def run_one(ctx, patches, conf, reqs, initial, schedule, seq_no, rootdir, rng):
     ok_req = all(world.coord_of(world.cache.tile_location(__import__('mapproxy.cache.tile', fromlist=['Tile']).Tile(t))) == t
                  for r in reqs for t in r)
     initial = sorted(set(tuple(t) for t in initial))
+    stale = conf.get('stale')
+    if not world.expire:
+        stale = []
+    elif stale is None:
+        pool = sorted(set(u for r in reqs for t in r for u in world.my_members(world.my_main(tuple(t)))) - set(initial))
+        k = rng.choice([1, 1, 2, 3, len(pool)])
+        hot = [tuple(r[0]) for r in reqs if r and tuple(r[0]) not in initial][:1]
+        stale = sorted(set(hot + rng.sample(pool, min(k, len(pool))))) if pool else []
+    world.stale = sorted(set(tuple(t) for t in stale) - set(initial))
     world.seed(initial)
+    world.seed_stale(world.stale)
     s = Sched(world, reqs)
     world.sched = s
     patches.sched = s
@@ -737,6 +831,8 @@ def oracle(world, s, reqs, initial, hang, final, extra, left):
                 if v is None:
                     out.append((SIG_RACE if race_window(s, tid, c) else 'response-missing-tile',
                                 'requester %d received no image for tile %r although the upstream delivers one' % (tid, c)))
+                elif world.expire and c in world.stale and v == enc_stale(c):
+                    pass        # the expired image the request loaded at the start (see grid_responses_answered)
                 elif v != enc(c):
                     out.append(('response-wrong-tile', 'requester %d received image %r for tile %r (expected %r)' % (tid, v, c, enc(c))))
     # one upstream call per meta tile
@@ -755,18 +851,21 @@ def oracle(world, s, reqs, initial, hang, final, extra, left):
     # final cache
     init = set(initial)
     expect = set(init)
+    renewed = set()
     for r in reqs:
         for t in r:
             if tuple(t) not in init:
-                expect.update(world.my_members(world.my_main(tuple(t))))
+                renewed.update(world.my_members(world.my_main(tuple(t))))
+    expect |= renewed | set(world.stale)
     if not hang:
         for c in sorted(expect - set(final)):
             out.append(('final-cache-missing', 'tile %r is not in the cache after all requests finished' % (c,)))
         for c in sorted(set(final) - expect):
             out.append(('final-cache-extra', 'tile %r is in the cache although nobody needed its meta tile' % (c,)))
         for c, v in sorted(final.items()):
-            if v != enc(c):
-                out.append(('final-cache-wrong-content', 'cache file of tile %r holds image %r' % (c, v)))
+            want = enc_stale(c) if (c in world.stale and c not in renewed) else enc(c)
+            if v != want:
+                out.append(('final-cache-wrong-content', 'cache file of tile %r holds image %r (expected %r)' % (c, v, want)))
         for p in extra:
             if '.tmp-' in p:
                 out.append(('final-cache-tempfile', 'temporary file %s left in the cache' % p))
@@ -793,6 +892,7 @@ def run_threads(ctx, reload_flag):
         else:
             todo.append(c)
     todo += race_family(rng, ctx.n(24, 200))
+    todo += stale_family(rng, ctx.n(40, 300))
     todo += contention_family(rng, ctx.n(40, 400))
     for _ in range(ctx.n(260, 3500)):
         conf = gen_conf(rng)
@@ -825,7 +925,8 @@ def run_threads(ctx, reload_flag):
             shared = any(len(v) >= 2 for v in mains.values())
             nontrivial = shared and (refused > 0 or under > 0)
             rep = {'origin': origin, 'conf': {'extent': list(conf['extent']), 'res': list(conf['res']), 'origin': conf['origin'],
-                                              'meta': list(conf['meta'])},
+                                              'meta': list(conf['meta']), 'expire': bool(conf.get('expire'))},
+                   'stale': [list(t) for t in world.stale],
                    'requests': [[list(t) for t in r] for r in reqs], 'initial': [list(t) for t in initial],
                    'schedule': list(schedule), 'trace': compact_trace(trace),
                    'responses': [list(r) if r else None for r in s.results],
@@ -835,7 +936,8 @@ def run_threads(ctx, reload_flag):
                      {'conf': rep['conf'], 'requests': rep['requests'], 'initial': rep['initial'], 'steps': len(trace),
                       'trace_head': compact_trace(trace[:30])})
             ctx.count('origin=' + origin.split(':')[0])
-            ctx.count('mode=' + ('meta' if world.meta else 'single'))
+            ctx.count('mode=' + ('meta' if world.meta else 'single') + (',expire' if world.expire else ''))
+            ctx.count('expired-tiles', len(world.stale))
             ctx.count('requesters=%d' % len(reqs))
             ctx.count('accesses', len(trace))
             ctx.count('lock-refused', refused)
@@ -857,8 +959,9 @@ def run_threads(ctx, reload_flag):
             if hang or s.weird:
                 obs.append(IMPOSSIBLE)
             ups = [c['main'] for c in world.source.calls]
-            terms.append('(%s, %s, %s, %s, [%s], %s, %s, %s)' % (
-                gconf_lit(world), blit(reload_flag),
+            terms.append('(%s, %s, %s, %s, %s, %s, [%s], %s, %s, %s)' % (
+                gconf_lit(world), blit(reload_flag), blit(world.expire),
+                llit(world.stale, lambda c: '(%s, %s)' % (clit(c), zlit(enc_stale(c)))),
                 llit(initial, lambda c: '(%s, %s)' % (clit(c), zlit(enc(c)))),
                 llit(reqs, lambda r: llit(r, clit)),
                 '; '.join(obs),
